@@ -30,7 +30,9 @@ func init() {
 
 var c03KnownStatements = []string{"INSERT INTO ks1.t (k, v) VALUES (?, ?)", "SELECT * FROM ks1.t WHERE k = ?", "UPDATE ks1.t SET v = ? WHERE k = ?", "DELETE FROM ks1.t WHERE k = ?"}
 
-func c03KnownID(i int) []byte { return fakecass.PreparedID("", c03KnownStatements[i%len(c03KnownStatements)]) }
+func c03KnownID(i int) []byte {
+	return fakecass.PreparedID("", c03KnownStatements[i%len(c03KnownStatements)])
+}
 
 type c03Client struct {
 	ver  primitive.ProtocolVersion
@@ -55,7 +57,7 @@ func runC03(c *Ctx) {
 	r.Assume("for responses the retry policy may swallow (unavailable, bootstrapping, overloaded, server error, truncate, retryable timeouts) the script answers identically on every host and the client must hold either exactly those bytes or the proxy's own 'no more hosts' error")
 	r.Require("requests_compared", "responses_compared")
 	maxBody := c.Pick(256<<10, 4<<20)
-	n := c.Pick(3000, 30000)
+	n := c.Pick(3000, 150000)
 	bed, err := px.NewBed(px.BedConfig{Hosts: 2, NumConns: 1, Keyspaces: []string{"ks1"}, KeepBodies: true, MaxVersion: primitive.ProtocolVersionDse2})
 	if err != nil {
 		r.Inconc("c03: cannot start bed: " + err.Error())
